@@ -409,6 +409,16 @@ partial def exec (x : XState) (args : List String) : XState × String :=
     ({ x' with opened := true, fastOpen := x.cfgFast }, r)
   | ["close"] => ({ x with opened := false }, "ok")
   | ["dump"] => (x, "?")
+  | ["encodedb", n] =>
+    -- the model writes a database image of version n with its own encoder; from here on the store
+    -- holds exactly that version
+    match findVer x.vs.versions n.toNat! with
+    | none => (x, "err")
+    | some c =>
+      let img := encodeVersion H n.toNat! c
+      let txt := "{" ++ " ".intercalate (img.map fun p => hexOf p.1 ++ ":" ++ hexOf p.2) ++ "}"
+      ({ x with vs := { x.vs with versions := [(n.toNat!, c)], working := c, lastSaved := c, base := n.toNat! },
+                opened := true, fastOpen := x.cfgFast, legacyLatest := none }, "img=" ++ txt)
   | "checkdump" :: toks =>
     let data := " ".intercalate toks
     let body := ((data.drop 1).dropRight 1).toString
